@@ -12,6 +12,8 @@ Local Open Scope string_scope.
    slice indices with any missing parts), calls with positional,
    starred, keyword and double-starred arguments in any number, list / tuple / set / dict displays with starred and
    double-starred elements, list / set / dict comprehensions with any number of `for` clauses and conditions,
+   generator expressions in the two positions where they are commonly written (the bare only argument of a call,
+   `sum(x for x in y)`, and a whole parenthesised expression),
    parenthesised groups, names and (opaque) literals.  Parse.pp is the unparser on that core, over the precedence ladder and the slot table
    REGENERATED from expr_unparse.py on every run; C03_printer_is_unparser PROVES that it is the unparser model Unparse.utoks
    (the model tied to expr_unparse.py by string equality) with every fragment split into words.
@@ -20,22 +22,22 @@ Local Open Scope string_scope.
 
    C03_roundtrip_core_partial: for EVERY tree of the core, of any depth and shape, the parser reads back exactly the tree
    from the printed tokens, consuming all of them.  PARTIAL with respect to the property: generator
-   expressions, index tuples that contain slices, f-strings and yield / await are outside the core (decided by
+   expressions as operands of other nodes, index tuples that contain slices, f-strings and yield / await are outside the core (decided by
    CPython's parser on all compositions, see the evidence); literals are opaque tokens (C04). *)
-Theorem C03_roundtrip_core_partial : forall e, core e = true -> is_starred e = false ->
+Theorem C03_roundtrip_core_partial : forall e, core_top e = true ->
   exists f0, forall f, f0 <= f -> pc f (MExpr slot_top) (pp slot_top e) = Some (e, []).
-Proof. exact roundtrip_core. Qed.
+Proof. exact roundtrip_core_top. Qed.
 Print Assumptions C03_roundtrip_core_partial.
 
 (* the printer of the theorem is the unparser model: for every tree of the core the fragments Unparse.utoks emits, split
    into words (Parse.norm: keywords / punctuation / names / opaque literals), are exactly the tokens of Parse.pp *)
-Theorem C03_printer_is_unparser : forall e, core e = true -> norm (unparse_toks e) = pp slot_top e.
-Proof. exact norm_unparse_core. Qed.
+Theorem C03_printer_is_unparser : forall e, core_top e = true -> norm (unparse_toks e) = pp slot_top e.
+Proof. exact norm_unparse_core_top. Qed.
 Print Assumptions C03_printer_is_unparser.
 
-Theorem C03_roundtrip_unparser_core_partial : forall e, core e = true -> is_starred e = false ->
+Theorem C03_roundtrip_unparser_core_partial : forall e, core_top e = true ->
   exists f0, forall f, f0 <= f -> pc f (MExpr slot_top) (norm (unparse_toks e)) = Some (e, []).
-Proof. exact roundtrip_unparser_core. Qed.
+Proof. exact roundtrip_unparser_core_top. Qed.
 Print Assumptions C03_roundtrip_unparser_core_partial.
 
 (* the table facts the proof rests on, each a finite check over the regenerated table (a changed precedence or slot
@@ -65,5 +67,5 @@ Example C03_nonvacuous :
   let e := IfExp (Compare (Name "a") [Is; NotIn] [UnaryOp Not (Name "b"); Name "c"])
                  (UnaryOp USub (BinOp (Name "a") Pow (UnaryOp USub (BinOp (Name "b") Pow (Name "c")))))
                  (lambda0 (BoolOp And [Name "x"; BoolOp Or [Name "y"; Name "z"]; NamedExpr "w" (Name "v")])) in
-  core e = true /\ parse_core (pp slot_top e) = Some e.
+  core_top e = true /\ parse_core (pp slot_top e) = Some e.
 Proof. split; vm_compute; reflexivity. Qed.
